@@ -7,11 +7,13 @@
      - [whitespace_irrelevant]: two renderings of the same raw tokens give the same symbols;
      - [compile_spells] (for C11): every text that renders raw tokens whose post-processing is a
        spelling of p compiles to encode p; [posts_name] etc.: which raw variations that covers;
-     - [assemble_tops], [compile_tops]: comments between top-level statements change nothing. *)
+     - [assemble_tops], [compile_tops]: comments between top-level statements change nothing;
+     - [retokenise_stable]: the re-tokenisation of an instantiated macro template made of symbols that
+       get_symbols leaves alone gives the template back (premise of AssemblerProofs.macro_expansion). *)
 From Coq Require Import ZArith List Bool Lia NArith String Ascii.
 From Coq.Strings Require Import Byte.
-From TS Require Import Bytes Codec Ops Names Asm Tables BytesLemmas CodecProofs AsmProofs Assembler
-  AssemblerProofs Tokenizer.
+From TS Require Import Bytes Codec Ops Names Asm Tables BytesLemmas CodecProofs AsmProofs Tokenizer Assembler
+  AssemblerProofs.
 Import ListNotations.
 Open Scope string_scope.
 Open Scope list_scope.
@@ -288,7 +290,7 @@ Section Comments.
   | tp_stmt : forall is ss p sp, stmt fl2 Top (hd_or None sp) is ss -> tops p sp ->
       tops (is ++ p) (ss ++ sp)
   | tp_comment : forall q body p sp, is_comment q = true -> mem q body = false ->
-      existsb unmodelled_symbol body = false -> tops p sp -> tops p (q :: body ++ q :: sp).
+      existsb bad_symbol body = false -> tops p sp -> tops p (q :: body ++ q :: sp).
 
   Lemma spells_tops : forall p syms, spells fl2 p syms -> tops p syms.
   Proof.
@@ -305,46 +307,48 @@ Section Comments.
   Lemma hd_error_hd_or : forall l : list string, hd_error l = hd_or None l.
   Proof. destruct l; reflexivity. Qed.
 
-  Lemma comment_unmodelled : forall q, is_comment q = true -> unmodelled_symbol q = false.
+  Lemma comment_unmodelled : forall q, is_comment q = true -> bad_symbol q = false.
   Proof.
     intros q H. apply mem_In in H. cbn [In] in H. destruct H as [<-|[<-|[<-|[]]]]; reflexivity.
   Qed.
 
   Lemma tops_run : forall p syms, tops p syms -> wf_prog p = true ->
-    existsb unmodelled_symbol syms = false /\
-    forall F n, (List.length syms <= F)%nat -> (List.length syms <= n)%nat ->
-    asm_loop (pn_fuel fl2 F) n syms = Ok (encode p).
+    existsb bad_symbol syms = false /\
+    forall m F n, (List.length syms <= F)%nat -> (List.length syms <= n)%nat ->
+    asm_loop (pn_at fl2 F m) n syms = Ok (encode p).
   Proof.
     induction 1 as [|is ss p sp S T IH|q body p sp Q M U T IH]; intros W.
-    - split; [reflexivity|]. intros F n _ _. destruct n; reflexivity.
+    - split; [reflexivity|]. intros m F n _ _. destruct n; reflexivity.
     - unfold wf_prog in W. rewrite forallb_app in W. apply andb_prop in W as [W1 W2].
       destruct (IH W2) as [U2 R2]. split.
       + destruct (good_stmt fl2 _ _ _ _ S W1) as (_ & _ & U1 & _). rewrite existsb_app, U1, U2. reflexivity.
-      + intros F n LF Ln. rewrite app_length in LF, Ln.
-        destruct (proj1 (spells_correct fl2) _ _ _ _ S W1 F sp ltac:(lia) (hd_error_hd_or sp))
+      + intros m F n LF Ln. rewrite app_length in LF, Ln.
+        destruct (proj1 (spells_correct fl2 m) _ _ _ _ S W1 F sp ltac:(lia) (hd_error_hd_or sp))
           as (h & t & -> & _ & P).
         cbn [defpre] in P. cbn [List.length] in *. destruct n as [|n']; [lia|].
         cbn [app asm_loop]. cbn [app] in P. rewrite P. cbn [rbind]. rewrite skipn_stmt.
-        rewrite (R2 F n') by lia. cbn [rbind]. unfold encode. rewrite flat_map_app. reflexivity.
+        rewrite (R2 m F n') by lia. cbn [rbind]. unfold encode. rewrite flat_map_app. reflexivity.
     - destruct (IH W) as [U2 R2]. split.
       + cbn [existsb]. rewrite (comment_unmodelled q Q), existsb_app, U. cbn [existsb orb].
         rewrite (comment_unmodelled q Q), U2. reflexivity.
-      + intros F n LF Ln. cbn [List.length] in LF, Ln. rewrite app_length in LF, Ln. cbn [List.length] in LF, Ln.
+      + intros m F n LF Ln. cbn [List.length] in LF, Ln. rewrite app_length in LF, Ln. cbn [List.length] in LF, Ln.
         destruct F as [|f']; [lia|]. destruct n as [|n']; [lia|].
-        assert (E : pn_fuel fl2 (Datatypes.S f') q (q :: body ++ q :: sp) = Ok ((List.length body + 2)%nat, [])).
-        { rewrite PN_S. unfold parse_next. rewrite Q. cbn [tl]. rewrite (index_of_mid q body sp M). reflexivity. }
+        assert (E : pn_at fl2 (Datatypes.S f') m q (q :: body ++ q :: sp) = Ok ((List.length body + 2)%nat, [])).
+        { rewrite (PN_S fl2 m). unfold parse_next. rewrite Q. cbn [tl]. rewrite (index_of_mid q body sp M). reflexivity. }
         cbn [asm_loop]. rewrite E. cbn [rbind].
         replace (List.length body + 2)%nat with (Datatypes.S (List.length (body ++ [q])))
           by (rewrite app_length; cbn [List.length]; lia).
         change (q :: body ++ q :: sp) with (q :: body ++ [q] ++ sp). rewrite app_assoc, skipn_stmt.
-        rewrite (R2 (Datatypes.S f') n') by lia. reflexivity.
+        rewrite (R2 m (Datatypes.S f') n') by lia. reflexivity.
   Qed.
 
   Theorem assemble_tops : forall p syms, tops p syms -> wf_prog p = true ->
     assemble_r fl2 syms = Ok (encode p).
   Proof.
-    intros p syms T W. destruct (tops_run p syms T W) as [U R]. unfold assemble_r. rewrite U.
-    apply R; lia.
+    intros p syms T W. destruct (tops_run p syms T W) as [U R]. unfold assemble_r.
+    rewrite (bad_unmodelled syms U).
+    replace (2 * List.length syms + 2)%nat with (Datatypes.S (2 * List.length syms + 1)) by lia.
+    rewrite asm_fuel_free by exact U. rewrite (R [] (2 * List.length syms + 1)%nat) by lia. reflexivity.
   Qed.
 
   (* comments do not change the result: removing them from a commented program gives a text (a
@@ -374,7 +378,7 @@ Section Comments.
 
   Corollary comment_between : forall p1 s1 p2 s2 q body,
     seq fl2 Top (Some q) p1 s1 -> tops p2 s2 -> wf_prog p1 = true -> wf_prog p2 = true ->
-    is_comment q = true -> mem q body = false -> existsb unmodelled_symbol body = false ->
+    is_comment q = true -> mem q body = false -> existsb bad_symbol body = false ->
     assemble_r fl2 (s1 ++ q :: body ++ q :: s2) = Ok (encode (p1 ++ p2)).
   Proof.
     intros p1 s1 p2 s2 q body S T W1 W2 Q M U. apply assemble_tops.
@@ -488,6 +492,43 @@ Example empty_string_value_unterminated :
   get_symbols "push s"""" true" = Err /\ get_symbols "push s"""" x"" true" = Ok ["PUSH"; "s"""" x"""; "TRUE"].
 Proof. split; vm_compute; reflexivity. Qed.
 
+(* ====================================================================================== *)
+(* 7. re-tokenisation of an instantiated macro template                                      *)
+(* ====================================================================================== *)
+
+(* invoke_macro compiles ' '.join(src): symbols that are whitespace-free, ASCII and left unchanged
+   by get_symbols come back as they are *)
+Lemma rend_join : forall l, Forall (fun t => tokenb t = true) l -> rend l (join_spaces l).
+Proof.
+  induction l as [|t l IH]; intros F; [apply (rd_nil ""); reflexivity|].
+  inversion F as [|t' l' Ht Fl]; subst. destruct l as [|u l].
+  - cbn [join_spaces]. rewrite <- (AsmProofs.append_nil_r t) at 2.
+    apply (rd_last "" t ""); [reflexivity|exact Ht|reflexivity].
+  - change (join_spaces (t :: u :: l)) with ("" ++ t ++ " " ++ join_spaces (u :: l))%string.
+    apply rd_cons; try reflexivity; [exact Ht|]. apply IH. exact Fl.
+Qed.
+Lemma all_ascii_app : forall a b, all_ascii (a ++ b)%string = all_ascii a && all_ascii b.
+Proof. intros. apply sall_app. Qed.
+Lemma all_ascii_join : forall l, Forall (fun t => all_ascii t = true) l -> all_ascii (join_spaces l) = true.
+Proof.
+  induction l as [|t l IH]; intros F; [reflexivity|]. inversion F as [|t' l' Ht Fl]; subst.
+  destruct l as [|u l]; [exact Ht|].
+  change (join_spaces (t :: u :: l)) with (t ++ String " " (join_spaces (u :: l)))%string.
+  rewrite all_ascii_app, Ht. cbn [all_ascii sall]. fold (all_ascii (join_spaces (u :: l))). rewrite IH by exact Fl. reflexivity.
+Qed.
+Lemma posts_all_stable : forall l, Forall stable_tok l -> posts l l.
+Proof. induction 1; [apply ps_nil|apply posts_stable; assumption]. Qed.
+
+Theorem retokenise_stable : forall l,
+  Forall (fun t => tokenb t = true /\ all_ascii t = true /\ stable_tok t) l ->
+  get_symbols (join_spaces l) = Ok l.
+Proof.
+  intros l F. apply (tokenise l l).
+  - apply rend_join. revert F. apply Forall_impl. intros t H. apply H.
+  - apply all_ascii_join. revert F. apply Forall_impl. intros t H. apply H.
+  - apply posts_all_stable. revert F. apply Forall_impl. intros t H. apply H.
+Qed.
+
 Print Assumptions split_rend.
 Print Assumptions gs_posts.
 Print Assumptions tokenise.
@@ -500,3 +541,4 @@ Print Assumptions comment_between.
 Print Assumptions compile_tops_split.
 Print Assumptions example_text_compiles.
 Print Assumptions example_string_value.
+Print Assumptions retokenise_stable.
